@@ -371,6 +371,22 @@ fn invalid_typed<V: Val>(t: &mut Tracer, rng: &mut Rng, _cx: &Ctx, var: Var, kin
             }
         }
     }
+    // several patterns that are shadowed (under leftmost-first) by different prefixes but share a
+    // tail, and possibly a genuine repeat of one of them
+    if rng.chance(1, 3) && pats.iter().filter(|p| !p.is_empty()).count() >= 2 {
+        let ne: Vec<Pat> = pats.iter().filter(|p| !p.is_empty()).cloned().collect();
+        let a = ne[rng.below(ne.len())].clone();
+        let b = ne[rng.below(ne.len())].clone();
+        let tl = rng.range(1, 2);
+        let tail: Pat = (0..tl).map(|_| *rng.pick(&alpha.pat)).collect();
+        for base in [a, b] {
+            let mut e = base;
+            e.extend_from_slice(&tail);
+            if !pats.contains(&e) || rng.chance(1, 6) {
+                pats.push(e);
+            }
+        }
+    }
     let entry = if rng.chance(1, 2) { "new" } else { "with_values" };
     let via_builder = kind != Kind::Std || rng.chance(1, 2);
     let nfb = if via_builder { *rng.pick(&[1u32, 2, 16]) } else { 16 };
@@ -389,7 +405,7 @@ fn invalid_typed<V: Val>(t: &mut Tracer, rng: &mut Rng, _cx: &Ctx, var: Var, kin
 /// C10: index conversion limits of narrow value types through the bare-pattern entry point
 fn conv_typed<V: Val>(t: &mut Tracer, rng: &mut Rng, var: Var, kind: Kind) {
     let limit = V::max_index() as usize; // 255 or 127
-    let n = *rng.pick(&[limit - 1, limit, limit + 1, limit + 2, limit + 30]);
+    let n = *rng.pick(&[limit - 1, limit, limit + 1, limit + 2, limit + 2, limit + 30, limit + 130]);
     // n distinct two-symbol patterns
     let mut pats: Vec<Pat> = vec![];
     let base: u32 = if var == Var::B { 0 } else { 0x4e00 };
@@ -415,7 +431,7 @@ fn conv_typed<V: Val>(t: &mut Tracer, rng: &mut Rng, var: Var, kind: Kind) {
 fn fam_invalid(t: &mut Tracer, rng: &mut Rng, cx: &Ctx) {
     let var = if rng.chance(1, 2) { Var::C } else { Var::B };
     let kind = *rng.pick(&[Kind::Std, Kind::LL, Kind::LF, Kind::LF]);
-    if rng.chance(1, 8) {
+    if rng.chance(1, 5) {
         if rng.chance(1, 2) {
             conv_typed::<u8>(t, rng, var, kind);
         } else {
@@ -607,6 +623,60 @@ fn fam_shadow(t: &mut Tracer, rng: &mut Rng, cx: &Ctx) {
     run_block::<u32>(t, rng, cx, &spec, &[], &hays, &ex, true);
 }
 
+/// C06: values are the input positions, for collections so large that the positions exceed the
+/// range of u8 (quick) / u16 (thorough): a truncated or wrapped index becomes visible
+fn fam_bigindex(t: &mut Tracer, rng: &mut Rng, cx: &Ctx) {
+    let var = if rng.chance(1, 2) { Var::C } else { Var::B };
+    let n: usize = if cx.thorough && rng.chance(1, 2) { 66_000 + rng.below(3000) } else { rng.range(300, 700) };
+    let k: u32 = if n > 60_000 { 260 } else { 30 };
+    let base: u32 = if var == Var::C { 0x4e00 } else { 0 };
+    let sym = |d: u32| -> u32 { if var == Var::B { d % 256 } else { base + d } };
+    // pattern i = the base-k digits of i, most significant first, fixed length => all distinct
+    let len = if var == Var::B && k > 256 { 3 } else { 2 };
+    let kk = if var == Var::B { k.min(256) } else { k };
+    let len = if (kk as usize).pow(len as u32) < n { len + 1 } else { len };
+    let pats: Vec<Pat> = (0..n)
+        .map(|i| {
+            let mut d = vec![];
+            let mut x = i as u32;
+            for _ in 0..len {
+                d.push(sym(x % kk));
+                x /= kk;
+            }
+            d.reverse();
+            d
+        })
+        .collect();
+    let kind = *rng.pick(&[Kind::Std, Kind::LL, Kind::LF]);
+    let vt = *rng.pick(&["u32", "u64", "usize", "i32", "u128"]);
+    let spec = BuildSpec { var, kind, entry: "new", via_builder: true, nfb: 16, pats };
+    fn go<V: Val>(t: &mut Tracer, rng: &mut Rng, spec: &BuildSpec) {
+        let (h, pma) = ev_build::<V>(t, spec, &[]);
+        let Some(pma) = pma else { return };
+        for _ in 0..3 {
+            let mut hay = vec![];
+            for _ in 0..6 {
+                // late patterns: their positions are the large ones
+                let i = spec.pats.len() - 1 - rng.below(spec.pats.len().min(200));
+                hay.extend_from_slice(&pat_bytes(spec.var, &spec.pats[i]));
+                let j = rng.below(spec.pats.len());
+                hay.extend_from_slice(&pat_bytes(spec.var, &spec.pats[j]));
+            }
+            let hay = Rc::new(hay);
+            for m in spec.kind.methods() {
+                ev_search(t, h, &pma, m, "slice", &hay, 0);
+            }
+        }
+        let (h2, p2) = ev_roundtrip(t, h, &pma, &[7]);
+        let i = spec.pats.len() - 1;
+        let hay = Rc::new(pat_bytes(spec.var, &spec.pats[i]));
+        for m in spec.kind.methods() {
+            ev_search(t, h2, &p2, m, "slice", &hay, 0);
+        }
+    }
+    with_val!(vt, go(t, rng, &spec));
+}
+
 /// C07: the UTF-8 decoder on branch boundaries and random scalars
 fn fam_decode(t: &mut Tracer, rng: &mut Rng, _cx: &Ctx) {
     let boundaries: [u32; 14] = [
@@ -654,7 +724,12 @@ pub fn family_of(prop: &str, i: u64) -> &'static str {
             2 | 6 | 9 => "shadow",
             _ => "small",
         },
-        "C06" | "C09" => {
+        "C06" => match i % 16 {
+            15 => "dict",
+            7 => "bigindex",
+            _ => "values",
+        },
+        "C09" => {
             if i % 16 == 15 {
                 "dict"
             } else {
@@ -720,6 +795,7 @@ pub fn run_scenario(t: &mut Tracer, prop: &str, thorough: bool, seed: u64, i: u6
         "lazy" => fam_lazy(t, &mut rng, &cx),
         "decode" => fam_decode(t, &mut rng, &cx),
         "shadow" => fam_shadow(t, &mut rng, &cx),
+        "bigindex" => fam_bigindex(t, &mut rng, &cx),
         "values" => fam_values(t, &mut rng, &cx, i),
         other => panic!("harness: unknown family {other}"),
     }));
